@@ -23,7 +23,8 @@ class RichSwnmEditor:
         for i, switch in enumerate(unique_switches_to_add):
             if switch.index is not None:
                 if switch not in new_switches:
-                    new_switches[switch.index] = switch
+                    # the section is a list of switches, not an array addressed by switch ID
+                    new_switches.append(switch)
                     if switch.index in allocable_ids:
                         allocable_ids.remove(switch.index)
                 else:
